@@ -427,7 +427,12 @@ func (g *Gen) Next(d *Dump, vnow int64) Action {
 				op.Nacks = append(op.Nacks, s)
 			}
 		}
+		// The two halves of a stream ack+nack transaction read the clock separately, and no
+		// connection ever fills both lists in one request (gRPC never nacks this way, the
+		// HTTP push connection returns either an ack batch or a nack batch): generate one or
+		// the other so that a single written time describes the step.
 		if g.chance(0.3) {
+			op.Nacks = nil
 			for _, s := range g.someAckIDs(d, name) {
 				if _, err := uuid.Parse(s); err == nil {
 					op.AckIDs = append(op.AckIDs, s)
